@@ -6,6 +6,10 @@ ROOT = os.path.dirname(os.path.dirname(os.path.abspath(__file__)))
 
 # id -> (category, technique, text, note, design_ref)
 CHECKS = {
+ "C09": ("fault_enumeration", "online/offline lifecycle monitor over Dialer and transport events: open-transport count at dial, CONNECT-first, back-off lower bounds, no dial after Disconnect; Disconnect/cancel steered into every loop phase",
+         "Seeded sequences of connection-ending causes (peer close, malformed packet, refused/absent CONNACK, cuts, dial-error runs, keep-alive silence, outages) x 6 back-off settings on the real ReconnectClient; Disconnect and context cancellation steered into each phase of the loop (parked Dialer, waiting CONNACK, back-off wait, connected).",
+         "Trusted: monotonic clock for lower bounds (sound under load); absence of dials after Disconnect observed for 3x max back-off.", "5/C09"),
+
  "C01": ("fault_enumeration", "obligation ledger over the recorded trace of the real ReconnectClient against a fault-injecting broker model; sentinel quiescence / certified-stuck",
          "Every single cut (4 kinds) at every request-packet ordinal of 10 canonical workloads x configurations, exhaustive cut pairs on short workloads (thorough), sampled pairs/triples, seeded random plans up to 6 faults incl. refused/absent CONNACK and dial failures, and steered submissions while the reconnect goroutine is inside the Dialer / a ConnectOption. Every accepted QoS>=1 publish, subscribe, unsubscribe must have an acknowledgement sent and consumed by quiescence.",
          "Trusted: broker model as specification of the peer; fault model of DESIGN.md 2.4; quiescence argument (two sentinels, FIFO task goroutine). Eventually is restated as quiescence after faults stop / certified stuck.", "5/C01"),
